@@ -707,6 +707,9 @@ func genSides(t *rapid.T, label string) int64 {
 		return rapid.SampledFrom([]int64{1, 2, 3, 4, 6, 8, 10, 12, 20, 100}).Draw(t, label)
 	case 4:
 		return rapid.Int64Range(1000, 2_000_000_000).Draw(t, label)
+	case 5:
+		// sizes at the seams of the generator's word sizes
+		return rapid.SampledFrom([]int64{2147483646, 2147483647, 2147483648, 4294967295, 4294967296, 65535, 65536, 65537}).Draw(t, label)
 	default:
 		return rapid.Int64Range(1, 30).Draw(t, label)
 	}
